@@ -225,7 +225,7 @@ func handle(l cout.Log, c net.Conn, h connServer, a string) {
 		return
 	}
 	switch v.next.Clear(); {
-	case n.Flags&com.FlagChannel != 0 || v.next.Flags&com.FlagChannel != 0:
+	case v.host != nil && (n.Flags&com.FlagChannel != 0 || v.next.Flags&com.FlagChannel != 0):
 	case v.host == nil:
 		fallthrough
 	case !v.host.chanStart():
